@@ -297,6 +297,7 @@ func cmdCheck(args []string) int {
 	// vacuity: preconditions must be satisfiable; of the reachability canaries that share a name (exit paths of a
 	// function, body ends of a loop) at least one must be satisfiable
 	vacOK, vacUnknown := 0, 0
+	var deadReturns []string
 	for name, sts := range vacuity {
 		anySat, anyUnknown := false, false
 		for _, st := range sts {
@@ -307,6 +308,12 @@ func cmdCheck(args []string) int {
 			default:
 				anyUnknown = true
 			}
+		}
+		if i := strings.Index(name, "#reach:return@"); i >= 0 {
+			if !anySat && !anyUnknown {
+				deadReturns = append(deadReturns, name[:i]+" "+name[i+len("#reach:return@"):])
+			}
+			continue
 		}
 		switch {
 		case anySat:
@@ -435,6 +442,10 @@ func cmdCheck(args []string) int {
 	for _, d := range degraded {
 		fmt.Printf("DEGRADED: %s -- not counted as proved; bounded stand-in used\n", d)
 	}
+	sort.Strings(deadReturns)
+	for _, d := range deadReturns {
+		fmt.Printf("NOTE: no path reaches the return at %s under the contract (what the contract says about that exit is vacuous)\n", d)
+	}
 	if len(toolErrors) > 0 {
 		for _, e := range toolErrors {
 			fmt.Println("TOOL-ERROR:", e)
@@ -507,6 +518,7 @@ func cmdCheck(args []string) int {
 		"load_s":                   round2(loadSecs),
 		"slowest":                  slowest,
 		"vacuity":                  map[string]int{"requires_sat": vacOK, "inconclusive": vacUnknown},
+		"unreachable_returns":      deadReturns,
 		"degraded_functions":       degraded,
 		"failed_obligations":       failedNames,
 		"known_findings_hit":       len(knownHit),
